@@ -68,7 +68,8 @@ def build(fileseed, specs, macros, structured, eol):
             decoy(cls, pos)
         elif pos == "before_stmt_same_line":
             d = decoy(cls, pos)
-            if cls in ("line_comment", "doc_comment", "inner_doc", "line_trailing_backslash", "line_comment_after_string", "line_comment_bare_cr", "line_comment_after_lifetime"):
+            if cls in ("line_comment", "doc_comment", "inner_doc", "line_trailing_backslash", "line_comment_after_string", "line_comment_bare_cr", "line_comment_after_lifetime",
+                       "line_comment_with_quoted_word_after_string", "line_comment_glued_to_colon"):
                 gf.newline()       # a line comment swallows the rest of its line by definition
                 gf.raw("    ")
             else:
